@@ -35,6 +35,14 @@ class Inode:
         self.fifo = fifo  # a named pipe / /dev/fd entry: exists, can be opened and read once, is not a regular file
 
 
+EOF_READ_LIMIT = 5000
+
+
+class Livelock(BaseException):
+    """The code under test keeps reading a device that has reported end-of-file thousands of times in a row:
+    the deterministic form of "does not terminate".  Not an Exception, so that no library handler eats it."""
+
+
 class HandlePlan:
     """Per-handle behaviour decided by the plan.
 
@@ -149,7 +157,12 @@ class SimRaw(io.RawIOBase):
         want = len(b)
         avail = len(self._inode.data) - self._pos
         if avail <= 0 or want == 0:
+            if want:
+                self._eof_reads = getattr(self, "_eof_reads", 0) + 1
+                if self._eof_reads > EOF_READ_LIMIT:
+                    raise Livelock("%s: %d consecutive reads at end-of-file" % (self.label, self._eof_reads))
             return 0
+        self._eof_reads = 0
         if plan.delivery is not None:
             if idx < len(plan.delivery):
                 lim = plan.delivery[idx]
